@@ -701,6 +701,11 @@ func (s *State) applyFunction(name string, fn object.Object, args []object.Objec
 	if !ok {
 		return s.NewError("not a function: " + fn.Type().String() + ":" + fn.Inspect())
 	}
+	if g := s.env.FuncGeneration(); g != s.cacheGen {
+		// a top level function was redefined: memoized results that called it are stale.
+		s.cache = NewCache()
+		s.cacheGen = g
+	}
 	if v, output, ok := s.cache.Get(function.CacheKey, args); ok {
 		log.Debugf("Cache hit for %s %v -> %#v", function.CacheKey, args, v)
 		if len(output) > 0 {
